@@ -352,9 +352,10 @@ func substringByRune(str string, start, length int64, hasLength bool) (string, e
 	if length < 0 {
 		return "", nil
 	}
-	end := start + length
-	if end > runeLen {
-		end = runeLen
+	// compare before adding: start + length overflows for a huge length and would pass the clamp
+	end := runeLen
+	if length < runeLen-start {
+		end = start + length
 	}
 	return string(runes[start:end]), nil
 }
